@@ -345,7 +345,7 @@ HANDLE_ARGS = {'add_node': [1], 'remove_node': [1], 'link': [1, 2], 'compromise'
                'set_flags': [1], 'set_ttc': [1], 'set_tags': [1], 'set_extras': [1]}
 
 
-def run_with_predicates(pid, impl, ops, per_case_timeout=10):
+def run_with_predicates(pid, impl, ops, per_case_timeout=10, keep_world=False):
     """Run a history on the implementation, evaluating the property on the live objects after each step.
     Returns meta dict: outs, obs, prop_viol [(step, message)], aliased."""
     import signal
@@ -472,7 +472,10 @@ def run_with_predicates(pid, impl, ops, per_case_timeout=10):
     finally:
         signal.alarm(0)
         signal.signal(signal.SIGALRM, old)
-    return {'ops': ops, 'outs': outs, 'obs': w.obs(), 'prop_viol': viol}
+    res = {'ops': ops, 'outs': outs, 'obs': w.obs(), 'prop_viol': viol}
+    if keep_world:
+        res['world'] = w
+    return res
 
 
 def _shrink(pid, impl, ops, pred):
@@ -496,6 +499,52 @@ def _shrink(pid, impl, ops, pred):
     return cur
 
 
+def rejected_adds_C11(impl, rng, tier):
+    """C11: a guarded history, then add_attacker calls taken as they are — ids that no node has (after valid ones, so
+    that the call fails half-way), the same attacker added again with corrected ids, an attacker that was removed before.
+    Returns (cases for GraphMirror.obs_run_then_adds, metas)."""
+    cases, metas = [], []
+    prof = PROFILES['C11']
+    for _ in range(120 if tier == 'quick' else 1500):
+        kw = {k: v for k, v in prof.items() if k not in ('weights', 'bad_ids')}
+        weights = {**prof['weights'], 'copy': 0}
+        ops = GW.gen_history(impl, rng, weights, **kw)
+        m = run_with_predicates('C11', impl, ops, keep_world=True)
+        w = m.pop('world')
+        g = w.graph
+        adds, aouts, viol = [], [], list(m['prop_viol'])
+        ids = list(g._id_to_node.keys())
+        fresh = None
+        for j in range(rng.randint(1, 3)):
+            out = [h for h in range(len(w.atts)) if not _is(w.atts[h], g.attackers)]
+            if fresh is None or not out or rng.random() < 0.4:
+                w.apply(('new_att', rng.choice(['eve', 'zed'])))
+                ops = ops + [('new_att', w.atts[-1].name)]
+                m['outs'].append([0, None])
+                h = fresh = len(w.atts) - 1
+            else:
+                h = rng.choice(out)
+            reached = rng.sample(ids, min(len(ids), rng.randrange(0, 3))) if ids else []
+            entry = list(reached[:rng.randrange(0, len(reached) + 1)])
+            if rng.random() < 0.6:
+                unknown = max(ids + [0]) + rng.randint(1, 4)
+                if rng.random() < 0.6: reached = reached + [unknown]
+                else: entry = entry + [unknown]
+            aid = rng.choice([None, None, g.next_attacker_id + 1] + list(g._id_to_attacker.keys())[:1])
+            call = (h, aid, reached, entry)
+            oc, _ = w.apply(('add_att',) + call)
+            adds.append(call)
+            aouts.append(oc)
+            for msg in mirror_violations(w):
+                viol.append((len(ops) + j, msg + ' (after add_attacker' + (' was rejected' if oc else '') + ')'))
+        obs = w.obs()
+        zl = lambda l: C.clist([C.cZ(int(x)) for x in l])
+        cadds = C.clist([f'({h}, {C.copt(i, C.cZ)}, {zl(r)}, {zl(e)})' for h, i, r, e in adds])
+        cases.append('(' + C.clist([GW.c_op(o) for o in ops]) + ',\n  ' + cadds + ',\n  ' + C.cjv([m['outs'], aouts, obs]) + ')')
+        metas.append({'ops': ops, 'adds': adds, 'outs': m['outs'], 'add_outs': aouts, 'obs': obs, 'prop_viol': viol, 'stream': 'rejected-adds'})
+    return cases, metas
+
+
 def check(pid: str, tier: str, seed: int):
     t0 = time.time()
     violations = []
@@ -513,6 +562,13 @@ def check(pid: str, tier: str, seed: int):
                 opcount[o[0]] = opcount.get(o[0], 0) + 1
         bad, counters, errors = C.run_cases(pid, GW.IMPORTS, GW.CASE_TYPE, GW.CHECK_DEF, cases, GW.EXTRA)
         guards = counters.get('GUARDS', 0)
+        abad, ametas = [], []
+        if pid == 'C11':
+            acases, ametas = rejected_adds_C11(impl, random.Random(seed * 104729 + 11), tier)
+            abad, _, aerrors = C.run_cases('C11A', GW.IMPORTS + ' GraphMirror', 'list op * list add_call * jv',
+                                           'Definition check (c : list op * list add_call * jv) : bool := '
+                                           'let \'(ops, adds, o) := c in jv_eqb (obs_run_then_adds ops adds) o.', acases, None, shard=60)
+            errors = errors + aerrors
         if errors:
             violations.append({'message': 'the correspondence could not be evaluated', 'cause': 'coq-error',
                                'correspondence': f'corr_{pid}_obs_run', 'errors': errors[:3]})
@@ -533,6 +589,21 @@ def check(pid: str, tier: str, seed: int):
                                'ops': small, 'observed': ms['prop_viol'], 'outs': ms['outs'],
                                'model_agrees': i not in bad, 'cases_violating': len(propbad)})
             reported = True
+        apropbad = [m for m in ametas if m['prop_viol']]
+        if apropbad and not reported:
+            m = min(apropbad, key=lambda x: len(x['ops']))
+            violations.append({'message': m['prop_viol'][0][1], 'cause': m['prop_viol'][0][1], 'failing_input_found': True,
+                               'ops': m['ops'], 'then_add_attacker_calls': m['adds'], 'add_outcomes': m['add_outs'],
+                               'observed': m['prop_viol'][:6], 'cases_violating': len(apropbad)})
+            reported = True
+        if abad and not reported:
+            m = ametas[abad[0]]
+            violations.append({'message': 'implementation and model disagree on a history that ends with add_attacker calls taken as they are; '
+                                          'no input found on which the property itself fails on the implementation',
+                               'cause': 'model-mismatch', 'correspondence': 'corr_C11_adds (GraphMirror.obs_run_then_adds)',
+                               'ops': m['ops'], 'then_add_attacker_calls': m['adds'], 'impl_outs': m['outs'], 'impl_add_outs': m['add_outs'],
+                               'impl_obs': m['obs'], 'mismatching_cases': len(abad)})
+            reported = True
         if bad and not reported:
             i = bad[0]
             m = metas[i]
@@ -552,7 +623,11 @@ def check(pid: str, tier: str, seed: int):
            'streams': streams, 'op_histogram': opcount, 'premises_met': guards,
            'history_length': {'min': min(lens, default=0), 'max': max(lens, default=0),
                               'mean': round(sum(lens) / max(1, len(lens)), 1)},
-           'mismatches': len(bad), 'exhaustive': False}
+           'mismatches': len(bad) + len(abad), 'exhaustive': False}
+    if pid == 'C11':
+        cov['evaluations'] += len(ametas)
+        cov['streams']['rejected-adds'] = len(ametas)
+        cov['add_attacker_calls_rejected'] = sum(1 for m in ametas for oc in m['add_outs'] if oc)
     if pid == 'C09':
         # "a regenerated graph is indistinguishable from a freshly generated one": generate from a real language and
         # model, edit the model and the graph, regenerate, compare with Gen.generate on the edited model
@@ -571,7 +646,7 @@ def check(pid: str, tier: str, seed: int):
 RULES = {
     'C08': 'every 2-node graph over type x status x {no TTC, TTC distribution} x every edge set incl. self-loops (every 8th in quick, all in thorough) + every 4-node fan (defense on/off, two children or/and with/without a TTC distribution linked in either order, a grandchild below one or both; 384) + seeded random fresh-labelled graphs of 2-7 nodes with a random reordering of the node list before the analysis; non-trivial = some label ends up false; distinct by final observation',
     'C09': 'seeded random guarded histories over all graph operations; non-trivial = final graph non-empty and >3 kinds of operation; distinct by (outcomes, final observation)',
-    'C11': 'all sequences of 2 (quick) / 3 (thorough) operations over 15 operations on a 3-node 2-attacker graph + seeded random histories; non-trivial = some attacker has reached steps and the history contains undo / remove_attacker / attach',
+    'C11': 'all sequences of 2 (quick) / 3 (thorough) operations over 15 operations on a 3-node 2-attacker graph + seeded random histories + seeded histories that end with 1-3 add_attacker calls taken as they are (ids that no node has, so that the call is rejected half-way; rejected or removed attackers added again); non-trivial = some attacker has reached steps and the history contains undo / remove_attacker / attach',
     'C12': 'seeded random labelled graphs with 1-3 attackers and interleaved compromises / queries + defense churn (defense queries, a defense removed and another added with the node count unchanged, the queries again); non-trivial = some query returned a non-empty list',
     'C13': 'seeded random labelled graphs (runs of adjacent prunable nodes arise from random labels); non-trivial = history prunes and some node is labelled non-viable or unnecessary',
     'C14': 'seeded random histories with deep copies followed by mutations of the copy and of the original; non-trivial = history contains a copy of a graph with >2 node objects',
